@@ -59,6 +59,7 @@ RUNS = {
         {"name": "K7-scenarios", "mode": "k7scen", "budget": (10, 200), "nontrivial": r".", "keyfn": "k7scen"},
         {"name": "K2-stale-receive-buffers", "mode": "k2", "budget": (1000, 25000), "nontrivial": r"recv\d+=(msg|proto)", "keyfn": "k2"},
         {"name": "K7-reply-content-under-concurrency", "mode": "k7tags", "budget": (90, 2000), "nontrivial": r"missing=0", "keyfn": "generic"},
+        {"name": "K6-client-replies-keep-their-content", "mode": "kmux", "budget": (600, 6000), "nontrivial": r".", "keyfn": "generic"},
         {"name": "K7-messages-intact-while-in-use", "mode": "kalias", "budget": (70, 1400), "nontrivial": r"answered=1", "keyfn": "generic"},
     ],
     "C19": [
@@ -700,6 +701,8 @@ for _p in ("C19", "C20"):
         "device (mknod; skipped where the host refuses): the QID type from Walk, GetAttr and Readdir equals the QID type of the reported mode.")
     PROPS[_p]["rule"] = PROPS[_p].get("rule", "") + (" kmapbig: 70 000 .. 300 000 distinct source paths through one mapper (every thousandth through a second "
         "one sharing the generator), then 2000 earlier ones again: same answers, no two sources share a path.")
+PROPS["C18"]["rule"] = PROPS["C18"].get("rule", "") + (" kmux (client side): concurrent calls answered in every order, in a quarter of the runs every one refused with "
+    "an errno of its own, back to back: each caller must see the QID / errno sent for its request (a reply object shared between calls shows as wrongerr / foreign).")
 PROPS["C10"]["level_text"] += (" Recycled response objects (Conc/RespPool.lean, after defect D20): over all clients of the process and every "
     "interleaving of calls starting, failing to send, being answered, connections failing and calls returning, a pooled response is referenced "
     "by no pending map and its channel is empty, no response serves two calls, and handleOne never blocks on a done channel while holding the "
